@@ -244,25 +244,18 @@ Definition K2 (s : segment) : bool :=
   | _, _ => false end.
 (* K3: a segment that is not part of a handshake is reported as a server signature *)
 Definition K3 (s : segment) : bool := match spec_role (th_flags (sg_tcp s)) with RNone => true | _ => false end.
-(* K5: `bad` is never reported; the NS bit is not taken as ECN *)
-Definition K5 (s : segment) : bool :=
-  opts_bad (options_of (sg_opts s))
-  || (th_ns (sg_tcp s) && negb (negb (ih_tos_ecn (sg_ip s) =? 0) || fECE (th_flags (sg_tcp s)) || fCWR (th_flags (sg_tcp s)))).
-(* K7: the "MSS + headers" MTU divisor is formed with the IPv4 header length in 32-bit words (IPv6: with 40,
-   the IP header alone) and saturates at 65535; it matters when no earlier window rule applies *)
+(* K5: `bad` is never reported.  (Its second half — the NS bit not taken as ECN — was repaired in /repo; K5_ns is
+   kept, constantly false, so that K5 keeps its shape for the files that take it apart.) *)
+Definition K5_ns (s : segment) : bool := false.
+Definition K5 (s : segment) : bool := opts_bad (options_of (sg_opts s)) || K5_ns s.
+(* K7 (the "MSS + headers" MTU divisor formed with the IPv4 header length in 32-bit words, saturating) was repaired
+   in /repo and is no longer a class of `known`.  The identifiers code_hdr and K7 remain for Proofs/Reach*.v (C13):
+   code_hdr is what process_tcp_ipv4/6 still hand to visit_tcp as header length (words / 40; used by mtu.rs only),
+   and `K7 s = false` now merely states that the window field is a 16-bit value, which holds for every decoded
+   segment (win_u16_of_decode in Proofs/C03Main.v). *)
 Definition code_hdr (s : segment) : N := match ih_ver (sg_ip s) with IpV4 => ih_hlen (sg_ip s) / 4 | _ => 40 end.
-Definition K7 (s : segment) : bool :=
-  let items := options_of (sg_opts s) in
-  let v := ih_ver (sg_ip s) in let w := th_win (sg_tcp s) in let ts := has_ts items in
-  match spec_mss items with
-  | Some m =>
-      negb (w =? 0) && (100 <=? m)
-      && match first_some (map (multiple_of w) (mss_divisors m ts)) with Some _ => false | None => true end
-      && match filter (fun d => w mod d =? 0) [4096; 2048; 1024; 512; 256] with _ :: _ => false | [] => true end
-      && match first_some (map (multiple_of w) ([1500; 1500 - min_headers v] ++ (if ts then [1500 - min_headers v - 12] else [])))
-         with Some _ => false | None => true end
-      && negb (option_eqb N.eqb (multiple_of w (sat16 (m + code_hdr s))) (multiple_of w (m + min_headers v)))
-  | None => false end.
+Definition win_overflow (s : segment) : bool := 65535 <? th_win (sg_tcp s).
+Definition K7 (s : segment) : bool := win_overflow s.
 (* K4: the quirk list the code builds (detection order, duplicates kept) is not the canonical, duplicate-free
    listing.  Stated on the list the model produces. *)
 Fixpoint strictly_increasing (l : list N) : bool :=
@@ -280,7 +273,7 @@ Definition K4 (model_result : res tcp_out) : bool := K4_of (out_quirks model_res
 Definition reportable (s : segment) : bool :=
   negb (ih_fragment (sg_ip s)) && match spec_role (th_flags (sg_tcp s)) with RInvalid => false | _ => true end.
 Definition known (s : segment) (model_result : res tcp_out) : bool :=
-  reportable s && (K1 s || K2 s || K3 s || K4 model_result || K5 s || K7 s).
+  reportable s && (K1 s || K2 s || K3 s || K4 model_result || K5 s).
 
 (* ---------------- framing (documented strategy order of the analyzer: Ethernet II with an IP ethertype,
    then a bare IP packet recognised by its version nibble, then the 4-byte NULL/loopback header 1e 00 xx xx) ---- *)
